@@ -265,12 +265,14 @@ where
                     }
                 });
 
-            let subview = match subview.into_shape_with_order(
-                self.data
-                    .raw_dim()
-                    .remove_axis(Axis(0))
-                    .remove_axis(Axis(0)),
-            ) {
+            // drop the leading (query) axes, which all have length 1, without
+            // making any assumption about the memory layout of the buffer
+            let mut subview = subview.into_dyn();
+            for _ in 0..xs.ndim() {
+                subview = subview.index_axis_move(Axis(0), 0);
+            }
+            let subview = match subview.into_dimensionality::<<D::Smaller as Dimension>::Smaller>()
+            {
                 Ok(view) => view,
                 Err(err) => {
                     let expect = self.get_buffer_shape(xs.raw_dim()).into_pattern();
